@@ -1,6 +1,10 @@
 import Driver.C17Ops
 import Gql.Types.PrintSchemaText
-/-! C17 driver: the shared schema-content operations plus `text` (the SDL text of `print_schema`). -/
+import Gql.Types.PrintSchemaTextWF
+/-! C17 driver: the shared schema-content operations plus `text` (the SDL text of `print_schema`)
+and `textwf` (the decidable hypothesis `textWFb` of the text theorems, with
+`experimental_directives_on_directive_definitions` as the harness parses; the second letter is the
+value without that flag). -/
 open Gql Gql.Types Gql.Types.SExp Driver in
 def stepC17 (line : String) : String :=
   match words line with
@@ -9,6 +13,15 @@ def stepC17 (line : String) : String :=
     | some [s] =>
       match dSchema s with
       | some s => render (.str (PrintSchema.printSchemaText Gql.Syntax.Widths.generated s))
+      | none => "bad-schema"
+    | _ => "bad-sexp"
+  | "textwf" :: toks =>
+    match parseToks toks with
+    | some [s] =>
+      match dSchema s with
+      | some s =>
+        (if PrintSchema.textWFb false true s then "T" else "F") ++ " " ++
+          (if PrintSchema.textWFb false false s then "T" else "F")
       | none => "bad-schema"
     | _ => "bad-sexp"
   | _ => Driver.C17Ops.step line
